@@ -10,9 +10,11 @@
      grp      : <points> / <extrema> ; <points> / <extrema> ; ... | <query points>
      area     : <points> | <copies>              copies = "-" (no repetition) or get_count()
      perim    : <points> | <copies>
-   The only arithmetic done here (outside the extracted code) is the floating-point evaluation of
-   the perimeter from the model's edge-vector list: sum of sqrt(dx*dx + dy*dy) in list order, times
-   copies, in IEEE double -- the same operations the C++ performs on the same vectors. *)
+     perimb   : <vertex bit patterns, 16 hex digits per coordinate> | <copies>
+   No arithmetic is done here: the perimeter lines are the bit patterns returned by the extracted
+   binary64 model (Perimeter.perimeter_Z / perimeter_bits, Flocq's IEEE operations) and by the
+   extracted specification (Perimeter.spec_perimeter_Z_bits: correctly rounded length of every
+   closed edge from the exact integer, summed in vertex order, times copies). *)
 open C14
 open Conv
 
@@ -43,14 +45,17 @@ let parse_copies s = match words s with
   | [h] -> Some (z_of_hex h)
   | _ -> failwith "copies"
 
-let float_of_z z = float_of_int (int_of_z z)
-let perimeter_float (edges : pt list) (copies : z option) : float =
-  let r = List.fold_left (fun acc (dx, dy) ->
-    let x = float_of_z dx and y = float_of_z dy in acc +. sqrt (x *. x +. y *. y)) 0.0 edges in
-  match copies with None -> r | Some c -> r *. float_of_z c
-let hex_dbl f = Printf.sprintf "%016Lx" (Int64.bits_of_float f)
-
-let rec nat_len = function [] -> 0 | _ :: t -> 1 + nat_len t
+let parse_copies_n s = match words s with
+  | ["-"] | [] -> None
+  | [h] -> Some (n_of_hex h)
+  | _ -> failwith "copies"
+let hex16 (n : n) : string =
+  let h = hex_of_n n in
+  if String.length h >= 16 then h else String.make (16 - String.length h) '0' ^ h
+let rec npairs = function
+  | x :: y :: t -> (x, y) :: npairs t
+  | [] -> []
+  | _ -> failwith "odd number of coordinates"
 
 let () =
   iter_cases Sys.argv.(1) (fun id kind payload ->
@@ -92,9 +97,12 @@ let () =
         out id "S" (hex_of_z sh ^ " " ^ hex_of_z (Z.mul (Z.abs sh) f))
     | "perim" ->
         let l = String.split_on_char '|' payload in
-        let poly = parse_pts (nth_or l 0) and copies = parse_copies (nth_or l 1) in
-        out id "M" (hex_dbl (perimeter_float (perimeter_edges poly) copies));
-        (* "all zero below three vertices", else the closed edge-length sum *)
-        let ev = if nat_len poly < 3 then [] else edge_vectors poly in
-        out id "S" (hex_dbl (perimeter_float ev copies))
+        let poly = parse_pts (nth_or l 0) and copies = parse_copies_n (nth_or l 1) in
+        out id "M" (hex16 (perimeter_Z poly copies));
+        (* "all zero below three vertices", else the closed edge-length sum times copies *)
+        out id "S" (hex16 (spec_perimeter_Z_bits poly copies))
+    | "perimb" ->
+        let l = String.split_on_char '|' payload in
+        let poly = npairs (List.map n_of_hex (words (nth_or l 0))) and copies = parse_copies_n (nth_or l 1) in
+        out id "M" (hex16 (perimeter_bits poly copies))
     | _ -> ())
